@@ -58,6 +58,18 @@ func dec(s string) sdk.Dec { return sdk.MustNewDecFromStr(s) }
 
 // ---------------------------------------------------------------- Coq / JSON emitters
 func zdec(d sdk.Dec) string { return hx.ZBig(d.BigInt()) }
+
+// capI64 truncates a Dec to int64, capped at 10^15 (weights differ by up to 10^18)
+func capI64(d sdk.Dec) int64 {
+	i := d.TruncateInt()
+	if i.GT(sdk.NewInt(1000000000000000)) {
+		return 1000000000000000
+	}
+	if i.IsNegative() {
+		return 0
+	}
+	return i.Int64()
+}
 func tokenCoq(t types.BasketToken) string {
 	return fmt.Sprintf("mkT %d %s %s %s %s %s", denomID(t.Denom), zdec(t.Weight), hx.ZInt(t.Amount), hx.B(t.Deposits), hx.B(t.Withdraws), hx.B(t.Swaps))
 }
@@ -187,6 +199,7 @@ type hist struct {
 	cur   post
 	init  post
 	dist  hx.Counter
+	pending int64 // staking rewards (xdd) pending for the basket module account
 	dead  bool // after the upsert hook the basket record is gone: history ends
 }
 
@@ -341,7 +354,7 @@ func (h *hist) edit(nb types.Basket) bool {
 	nb.Id, nb.Suffix = 1, SUFFIX
 	return h.run("OEdit "+basketCoq(nb), "edit", map[string]interface{}{"proposal": basketJSON(nb), "recorded_amount_before": h.cur.B.Amount.String()},
 		func(ctx sdk.Context) error {
-			return basket.NewApplyEditBasketProposalHandler(app.BasketKeeper).Apply(ctx, 2, &types.ProposalEditBasket{Basket: nb}, sdk.ZeroDec())
+			return app.CustomGovKeeper.GetProposalRouter().ApplyProposal(ctx, 2, &types.ProposalEditBasket{Basket: nb}, sdk.ZeroDec())
 		})
 }
 func (h *hist) disable(which int, allowed bool) bool {
@@ -367,24 +380,68 @@ func (h *hist) disable(which int, allowed bool) bool {
 // upsertKills: the pool-upsert hook replaces the record of basket 1 (probed); such a history ends there
 var upsertKills = true
 
-// withdraw runs the real ProposalBasketWithdrawSurplus handler with the basket ids as listed
-func (h *hist) withdraw(ids []uint64, target int) bool {
+// withdraw runs ProposalBasketWithdrawSurplus through the gov proposal router (the registered handler)
+// with the basket ids as listed.  With rewardAmt > 0 staking rewards are first made pending for the
+// basket module account in x/multistaking (and the fee collector funded), as the distributor does for
+// a delegator: the handler claims them into the module account and forwards them to the receiver.
+func (h *hist) withdraw(ids []uint64, target int, rewardAmt int64) bool {
 	var l []string
 	for _, id := range ids {
 		l = append(l, fmt.Sprint(id))
 	}
-	return h.run(fmt.Sprintf("OWithdraw %s %d", hx.List(l), target), "withdraw_surplus", map[string]interface{}{"basket_ids": ids, "target_holder": target},
+	if rewardAmt > 0 {
+		cs := sdk.NewCoins(sdk.NewInt64Coin(denoms[4], rewardAmt))
+		if err := app.BankKeeper.MintCoins(h.ctx, minttypes.ModuleName, cs); err != nil {
+			panic(err)
+		}
+		if err := app.BankKeeper.SendCoinsFromModuleToModule(h.ctx, minttypes.ModuleName, authtypes.FeeCollectorName, cs); err != nil {
+			panic(err)
+		}
+		app.MultiStakingKeeper.IncreaseDelegatorRewards(h.ctx, modAddr, cs)
+		h.pending += rewardAmt
+	}
+	rw := "[]"
+	if h.pending > 0 {
+		rw = fmt.Sprintf("[(4, %d)]", h.pending)
+	}
+	ok := h.run(fmt.Sprintf("OWithdraw %s %d %s", hx.List(l), target, rw), "withdraw_surplus",
+		map[string]interface{}{"basket_ids": ids, "target_holder": target, "pending_staking_rewards_of_module_xdd": h.pending},
 		func(ctx sdk.Context) error {
-			return basket.NewApplyBasketWithdrawSurplusProposalHandler(app.BasketKeeper).Apply(ctx, 3,
+			return app.CustomGovKeeper.GetProposalRouter().ApplyProposal(ctx, 3,
 				&types.ProposalBasketWithdrawSurplus{BasketIds: ids, WithdrawTarget: holders[target-1].String()}, sdk.ZeroDec())
 		})
+	if ok {
+		h.pending = 0
+	}
+	return ok
+}
+
+// genesis exports the basket module's genesis, wipes its store and imports it again (what a chain
+// restarted from an export does to this module), through the module's real ExportGenesis / InitGenesis
+func (h *hist) genesis() bool {
+	return h.run("OGenesis", "genesis", nil, func(ctx sdk.Context) error {
+		am := basket.NewAppModule(app.BasketKeeper, app.CustomGovKeeper)
+		data := am.ExportGenesis(ctx, app.AppCodec())
+		store := ctx.KVStore(app.GetKey(types.ModuleName))
+		var keys [][]byte
+		it := store.Iterator(nil, nil)
+		for ; it.Valid(); it.Next() {
+			keys = append(keys, append([]byte{}, it.Key()...))
+		}
+		it.Close()
+		for _, k := range keys {
+			store.Delete(k)
+		}
+		am.InitGenesis(ctx, app.AppCodec(), data)
+		return nil
+	})
 }
 
 // create runs the real ProposalCreateBasket handler
 func (h *hist) create(nb types.Basket) bool {
 	return h.run("OCreate "+basketCoq(nb), "create", map[string]interface{}{"proposal": basketJSON(nb), "suffix": nb.Suffix},
 		func(ctx sdk.Context) error {
-			return basket.NewApplyCreateBasketProposalHandler(app.BasketKeeper).Apply(ctx, 4, &types.ProposalCreateBasket{Basket: nb}, sdk.ZeroDec())
+			return app.CustomGovKeeper.GetProposalRouter().ApplyProposal(ctx, 4, &types.ProposalCreateBasket{Basket: nb}, sdk.ZeroDec())
 		})
 }
 
@@ -398,7 +455,11 @@ func (h *hist) genWithdraw(r *hx.Rng) {
 			ids = append(ids, uint64(r.Intn(len(h.cur.Sibs)+3)))
 		}
 	}
-	h.withdraw(ids, 1+r.Intn(NH))
+	rw := int64(0)
+	if r.Chance(30) {
+		rw = r.Range(1, 5000)
+	}
+	h.withdraw(ids, 1+r.Intn(NH), rw)
 }
 func (h *hist) genCreate(r *hx.Rng) {
 	nb := genConfig(r)
@@ -451,10 +512,11 @@ func (h *hist) endBlock() bool {
 }
 
 // ---------------------------------------------------------------- generators
-var weightPool = []string{"1", "1", "2", "0.5", "10", "0.1", "1.5", "0.333333333333333333", "3.7", "0.25"}
+// weights span tokens of different decimals (a unit of one token worth 10^6 units of another)
+var weightPool = []string{"1", "1", "2", "0.5", "10", "0.1", "1.5", "0.333333333333333333", "3.7", "0.25", "0.000001", "1000000", "0.000000000001"}
 var feePool = []string{"0", "0", "0.01", "0.003", "0.1", "0.5", "1"}
 var slipPool = []string{"0", "0", "0.01", "0.05", "0.001", "0.3"}
-var capPool = []string{"1", "1", "1", "1", "0.9", "0.8", "0.7", "0.6", "0.51"}
+var capPool = []string{"1", "1", "1", "1", "1", "0.9", "0.8", "0.7", "0.6", "0.51", "0.5", "0"}
 var periodPool = []uint64{1, 10, 100, 3600, 86400}
 var minPool = []int64{0, 1, 1, 1, 10, 100}
 var maxPool = []int64{60000, 20000000, 1000000000, 1000000000000, 1000000000000}
@@ -558,7 +620,7 @@ func (h *hist) genMint(r *hx.Rng) {
 		if tight {
 			jit = r.Range(97, 103)
 		}
-		x := sdk.NewDec(base).Quo(w).MulInt64(jit).QuoInt64(100).TruncateInt64()
+		x := capI64(sdk.NewDec(base).Quo(w).MulInt64(jit).QuoInt64(100))
 		if x < 1 {
 			x = 1
 		}
@@ -672,7 +734,7 @@ func (h *hist) genSwap(r *hx.Rng) {
 		lim := h.bal(a, in)
 		for _, t := range h.cur.B.Tokens {
 			if denomID(t.Denom) == out && !r.Chance(8) {
-				canPay := sdk.NewDecFromInt(t.Amount).Mul(t.Weight).Quo(h.weight(in)).QuoInt64(2).TruncateInt64()
+				canPay := capI64(sdk.NewDecFromInt(t.Amount).Mul(t.Weight).Quo(h.weight(in)).QuoInt64(2))
 				if canPay < lim {
 					lim = canPay
 				}
@@ -842,8 +904,10 @@ func genHistory(r *hx.Rng, dist hx.Counter) *hist {
 			h.hook(0, pick(r, []string{"0.1", "0.5", "0.01", "1"}))
 		case k < 93:
 			h.hook(1, sdk.ZeroDec())
-		case k < 96:
+		case k < 95:
 			h.endBlock()
+		case k < 96:
+			h.genesis()
 		case k < 98:
 			if r.Chance(70) {
 				h.genWithdraw(r)
@@ -937,7 +1001,7 @@ func genBlockHistory(r *hx.Rng, dist hx.Counter) *hist {
 			case 0:
 				v := amt(cfg.MintsMax)
 				w1, w2 := h.weight(1), h.weight(2)
-				h.mint(a, []int{1, 2}, []int64{sdk.NewDec(v / 2).Quo(w1).TruncateInt64() + 1, sdk.NewDec(v / 2).Quo(w2).TruncateInt64() + 1})
+				h.mint(a, []int{1, 2}, []int64{capI64(sdk.NewDec(v / 2).Quo(w1)) + 1, capI64(sdk.NewDec(v / 2).Quo(w2)) + 1})
 			case 1:
 				x := amt(cfg.BurnsMax)
 				if own := h.bal(a, 0); x > own {
@@ -947,9 +1011,9 @@ func genBlockHistory(r *hx.Rng, dist hx.Counter) *hist {
 			default:
 				v := amt(cfg.SwapsMax)
 				in, out := 1+i%2, 2-i%2
-				x := sdk.NewDec(v).Quo(h.weight(in)).TruncateInt64() + 1
+				x := capI64(sdk.NewDec(v).Quo(h.weight(in))) + 1
 				if r.Chance(30) {
-					h.swap(a, []pair{{in, x / 2, out}, {out, sdk.NewDec(v / 2).Quo(h.weight(out)).TruncateInt64() + 1, in}})
+					h.swap(a, []pair{{in, x / 2, out}, {out, capI64(sdk.NewDec(v / 2).Quo(h.weight(out))) + 1, in}})
 				} else {
 					h.swap(a, []pair{{in, x, out}})
 				}
@@ -969,6 +1033,26 @@ func genBlockHistory(r *hx.Rng, dist hx.Counter) *hist {
 		}
 		if r.Chance(20) {
 			h.endBlock()
+		}
+		if r.Chance(25) { // limits and period changed by proposal between blocks, up and down across the running totals
+			nb := h.cur.B
+			nb.Tokens = append([]types.BasketToken{}, h.cur.B.Tokens...)
+			nb.Surplus = []sdk.Coin{}
+			f := []int64{1, 2, 4, 8}[r.Intn(4)]
+			if r.Bool() {
+				nb.MintsMax, nb.BurnsMax, nb.SwapsMax = nb.MintsMax.MulRaw(f), nb.BurnsMax.MulRaw(f), nb.SwapsMax.MulRaw(f)
+			} else {
+				nb.MintsMax, nb.BurnsMax, nb.SwapsMax = nb.MintsMax.QuoRaw(f), nb.BurnsMax.QuoRaw(f), nb.SwapsMax.QuoRaw(f)
+			}
+			if r.Chance(40) {
+				nb.LimitsPeriod = []uint64{1, 2, 5, 60, 120}[r.Intn(5)]
+				P = int64(nb.LimitsPeriod) * NS
+			}
+			h.edit(nb)
+			cfg = h.cur.B
+		}
+		if r.Chance(8) {
+			h.genesis()
 		}
 	}
 	return h
@@ -1037,16 +1121,39 @@ func scenarios(dist hx.Counter) []*hist {
 	h = startHist("scenario:withdraw_surplus_repeated_ids", plainConfig("1", "2"), plainFunds(), dist)
 	h.mint(1, []int{1, 2}, []int64{20000, 10000})
 	h.swap(2, []pair{{1, 3000, 2}})
-	h.withdraw([]uint64{2, 1, 2, 1}, 3)
+	h.withdraw([]uint64{2, 1, 2, 1}, 3, 0)
 	h.swap(2, []pair{{2, 1000, 1}})
-	h.withdraw([]uint64{1, 3}, 3)
-	h.withdraw([]uint64{}, 3)
-	h.withdraw([]uint64{1, 1}, 4)
+	h.withdraw([]uint64{1, 3}, 3, 250)
+	h.withdraw([]uint64{}, 3, 0)
+	h.withdraw([]uint64{1, 1}, 4, 100)
 	h.burn(1, 0, 1000)
 	c3 := plainConfig("0.5", "1", "3.7")
 	c3.Suffix = "c3"
 	h.create(c3)
-	h.withdraw([]uint64{3, 2, 3}, 1)
+	h.withdraw([]uint64{3, 2, 3}, 1, 0)
+	h.genesis()
+	h.mint(2, []int{1, 2}, []int64{500, 250})
+	h.withdraw([]uint64{1, 2, 3}, 2, 0)
+	hs = append(hs, h)
+	// genesis export/import between two blocks of one second: the action history is exported with whole
+	// seconds and imported with Set, so the entries of that second collapse into the last one
+	gc := plainConfig("1", "2")
+	gc.LimitsPeriod, gc.MintsMax, gc.BurnsMax, gc.SwapsMax = 60, sdk.NewInt(3000), sdk.NewInt(1500), sdk.NewInt(1000)
+	gc.SwapFee, gc.SlipppageFeeMin = sdk.ZeroDec(), sdk.ZeroDec()
+	h = startHist("scenario:genesis_round_trip_collapses_limit_history", gc, plainFunds(), dist)
+	h.mint(1, []int{1, 2}, []int64{500, 250})
+	h.now += 100
+	h.mint(2, []int{1, 2}, []int64{500, 250})
+	h.burn(1, 0, 700)
+	h.swap(3, []pair{{1, 400, 2}})
+	h.now += 100
+	h.burn(2, 0, 700)
+	h.swap(3, []pair{{1, 500, 2}})
+	h.genesis()
+	h.now += 100
+	h.mint(3, []int{1, 2}, []int64{750, 375})
+	h.burn(2, 0, 200)
+	h.swap(3, []pair{{1, 300, 2}})
 	hs = append(hs, h)
 	// a create proposal whose basket carries a recorded amount
 	h = startHist("scenario:create_with_amount_field", plainConfig("1", "2"), plainFunds(), dist)
